@@ -180,9 +180,14 @@ def run(ctx):
         n *= 5
     seed0 = ctx.seed * 1000003
     samples = []
-    for what, cnt, env in [("rand", n, {}), ("rand/pct", n // 3, {"VRT_STRATEGY": "pct"})]:
-        runs = ctx.econc(exe, drv, ["rand"], seed0 + (0 if not env else 7 * n), cnt, env=env)
-        classify(ctx, dist, distinct, runs, what)
+    for what, cnt, env in [("rand", n, {}), ("rand/pct", n // 3, {"VRT_STRATEGY": "pct"}), ("rand/view", n // 3, {"VRT_MEM": "view"})]:
+        view = "VRT_MEM" in env
+        # view mode (release/acquire view memory: acquire loads of the table pointer / retire head may be stale) is an
+        # oracle-only pass: its traces are not SC interleavings, so they are not replayed against the SC model
+        runs = ctx.econc(exe, None if view else drv, ["rand"], seed0 + (0 if not env else (7 if not view else 13) * n), cnt, env=env)
+        classify(ctx, dist, distinct, runs, what, lockstep=not view)
+        if view:
+            dist["view_stale_reads"] = sum(int(l.split()[-1]) for r in runs for l in r["lines"] if " ev stats " in l and " stale " in l)
         ctx.log("E-CONC %s: %d runs" % (what, len(runs)))
         if not samples and runs:
             samples.append(runs[0]["lines"][:60])
@@ -212,13 +217,14 @@ def replay(ctx, path):
         print(op, "impl:", io[-1:], "model:", mo[-1:], err[-2000:])
         return 1 if (io != mo or "!ORACLE" in " ".join(io) or rc != 0) else 0
     what, seed = m.group(1), int(m.group(2))
+    view = what.endswith("/view")
     if what.startswith("script:"):
         args = ["script", str(VERIF / "corpus" / "C04" / what[7:])]
         env = {}
     else:
         args = ["rand"]
-        env = {"VRT_STRATEGY": "pct"} if what.endswith("/pct") else {}
-    r = ctx.econc(exe, drv, args, seed, 1, env=env)[0]
+        env = {"VRT_STRATEGY": "pct"} if what.endswith("/pct") else ({"VRT_MEM": "view"} if view else {})
+    r = ctx.econc(exe, None if view else drv, args, seed, 1, env=env)[0]
     print("\n".join(r["lines"]))
     print("verdict:", r["verdict"], "replay:", r["replay"], "oracle:", r["oracle"], "races:", r["races"])
     return 1 if (r["oracle"] or r["races"] or r["verdict"] != "ok" or (r["replay"] and not r["replay"].startswith("ok"))) else 0
